@@ -46,6 +46,8 @@ def run(ctx):
     tab = (ctx.prog.consts.get(c02.TABLE) or {}).get("bytes")
     if tab is not None:
         c02.decode_rules(dep(ctx, "C10", "C02"), tab)
+    from . import c06
+    c06.reader_deps(ctx, "C10")
 
 
 def s2m_rules(ctx, fv):
